@@ -13,7 +13,26 @@ from ..ctl import ProcessState
 from ._common import CtlProperty, default_sample, describe_unit, enter_trace, features
 
 ID = 'C06'
-ALPHABET = (('resume', 'v1'), ('resume', None), ('resume',), ('pause',), ('play',))
+
+
+class AlwaysEqual:
+    """A value whose ``==`` says yes to everything (like ``unittest.mock.ANY``; numpy arrays and other values with a
+    rich ``==`` are of the same kind): it must be delivered like any other value."""
+
+    def __eq__(self, other: Any) -> bool:
+        return True
+
+    def __ne__(self, other: Any) -> bool:
+        return False
+
+    __hash__ = object.__hash__
+
+    def __repr__(self) -> str:
+        return 'ANYTHING'
+
+
+ANYTHING = AlwaysEqual()
+ALPHABET = (('resume', 'v1'), ('resume', None), ('resume',), ('resume', ANYTHING), ('pause',), ('play',))
 
 
 class Cfg(ctl.Config):
@@ -56,7 +75,7 @@ class Oracle:
                 continue
             if len(runs) > 1:
                 w.violate('continuation-ran-twice', features(w, first), runs)
-            if runs[0][1] != tuple(first['args']):
+            if len(runs[0][1]) != len(first['args']) or any(a is not b and a != b for a, b in zip(runs[0][1], first['args'])):
                 w.violate('wrong-resume-value', features(w, first, got=repr(runs[0][1]), want=repr(first['args'])),
                           f'{cont} received {runs[0][1]}, first accepted resume carried {first["args"]}')
         if accepted and proc.state == ProcessState.WAITING:
